@@ -133,39 +133,69 @@ type seenJob struct {
 }
 
 // fidelity runs one producer/consumer pair for payload type T and compares.
+// fidOpts: Retain = the producer's adapter keeps the slices it is handed; Par = number of goroutines
+// that submit at the same time through the same queue object (ids are then unique and the consumer's
+// jobs are matched by id instead of by position).
+type fidOpts struct {
+	Retain bool
+	Par    int
+}
+
+var fidOpt fidOpts
+
 func fidelity[T any](c *RunCtx, e *Env, variant int, vals []T, ids []string, prios []int) {
 	prio := variant%2 == 1
 	distributed := variant/2 == 1
+	par := fidOpt.Par
+	if par > 1 {
+		ids = append([]string{}, ids...)
+		for i := range ids {
+			ids[i] = fmt.Sprintf("u%d-%s", i, ids[i])
+		}
+	}
+	// addAll runs add(i) for every value, from one goroutine or from par goroutines at once
+	addAll := func(add func(i int)) {
+		if par <= 1 {
+			for i := range vals {
+				add(i)
+			}
+			return
+		}
+		var wg sync.WaitGroup
+		for g := 0; g < par; g++ {
+			wg.Add(1)
+			go func() {
+				defer wg.Done()
+				for i := g; i < len(vals); i += par {
+					add(i)
+				}
+			}()
+		}
+		wg.Wait()
+	}
 	// --- producer side
 	prod := NewLedger(e, prio)
+	prod.Retain = fidOpt.Retain
 	accepted := make([]bool, len(vals))
 	var prodSubmitted uint64
 	if distributed {
 		if prio {
 			q := varmq.NewDistributedPriorityQueue[T](prod.PQ())
-			for i, v := range vals {
-				accepted[i] = q.Add(v, prios[i], varmq.WithJobId(ids[i]))
-			}
+			addAll(func(i int) { accepted[i] = q.Add(vals[i], prios[i], varmq.WithJobId(ids[i])) })
 		} else {
 			q := varmq.NewDistributedQueue[T](prod.Q())
-			for i, v := range vals {
-				accepted[i] = q.Add(v, varmq.WithJobId(ids[i]))
-			}
+			addAll(func(i int) { accepted[i] = q.Add(vals[i], varmq.WithJobId(ids[i])) })
 		}
 	} else {
 		w := varmq.NewWorker(func(j varmq.Job[T]) {}, 1)
 		if prio {
 			q := w.WithPersistentPriorityQueue(prod.PQ())
 			w.Pause()
-			for i, v := range vals {
-				accepted[i] = q.Add(v, prios[i], varmq.WithJobId(ids[i]))
-			}
+			addAll(func(i int) { accepted[i] = q.Add(vals[i], prios[i], varmq.WithJobId(ids[i])) })
 		} else {
 			q := w.WithPersistentQueue(prod.Q())
 			w.Pause()
-			for i, v := range vals {
-				accepted[i] = q.Add(v, varmq.WithJobId(ids[i]))
-			}
+			addAll(func(i int) { accepted[i] = q.Add(vals[i], varmq.WithJobId(ids[i])) })
 		}
 		prodSubmitted = w.Metrics().Submitted()
 		synctest.Wait()
@@ -265,11 +295,39 @@ func fidelity[T any](c *RunCtx, e *Env, variant int, vals []T, ids []string, pri
 	}
 	mu.Lock()
 	defer mu.Unlock()
+	nWant := len(want)
 	if len(seen) != len(want) {
 		e.Fail("C12", "count", "", fmt.Sprintf("consumer ran %d jobs, %d were accepted (errors on Errs(): %v)", len(seen), len(want), errs))
 	}
+	if par > 1 {
+		// arrival order is the producers' business here: match by (unique) id
+		byID := map[string]exp{}
+		for _, w := range want {
+			byID[w.id] = w
+		}
+		got := map[string]int{}
+		for i, sj := range seen {
+			w, ok := byID[sj.ID]
+			got[sj.ID]++
+			if !ok {
+				e.Fail("C12", "id", "parallel", fmt.Sprintf("job %d: consumer saw id %q, nothing was submitted under it (%d producers on one queue)", i, sj.ID, par))
+				continue
+			}
+			if !reflect.DeepEqual(sj.Data, any(w.data)) {
+				e.Fail("C12", "payload", fmt.Sprintf("parallel/%T", w.data), fmt.Sprintf("job %d (id %q): consumer saw %#v, JSON round trip of the submitted value is %#v (%d producers on one queue)", i, sj.ID, sj.Data, w.data, par))
+				e.Fail("C07", "submitted-data", fmt.Sprintf("adapter/%T", w.data), fmt.Sprintf("job %d (id %q): the worker function received %#v, submitted (JSON round trip) %#v", i, sj.ID, sj.Data, w.data))
+			}
+		}
+		for id, n := range got {
+			if n > 1 {
+				e.Fail("C12", "duplicate", "parallel", fmt.Sprintf("id %q reached the consumer %d times", id, n))
+			}
+		}
+		seen, want = nil, nil
+	}
 	for i := 0; i < len(seen) && i < len(want); i++ {
 		if seen[i].ID != want[i].id {
+			e.Fail("C07", "own-id", "adapter", fmt.Sprintf("job %d: the worker function saw id %q, submitted %q", i, seen[i].ID, want[i].id))
 			e.Fail("C12", "id", "", fmt.Sprintf("job %d: consumer saw id %q, submitted %q", i, seen[i].ID, want[i].id))
 		}
 		if !reflect.DeepEqual(seen[i].Data, any(want[i].data)) && !bothNaNFree(seen[i].Data, want[i].data) {
@@ -280,10 +338,10 @@ func fidelity[T any](c *RunCtx, e *Env, variant int, vals []T, ids []string, pri
 	if len(errs) != 0 {
 		e.Fail("C12", "spurious-error", "", fmt.Sprintf("valid entries produced errors: %v", errs))
 	}
-	if p, u, a := cons.State(); p != 0 || u != 0 || a != len(want) {
-		e.Fail("C11", "ledger-not-drained", "fidelity", fmt.Sprintf("consumer adapter: pending=%d unacked=%d acked=%d, want 0/0/%d", p, u, a, len(want)))
+	if p, u, a := cons.State(); p != 0 || u != 0 || a != nWant {
+		e.Fail("C11", "ledger-not-drained", "fidelity", fmt.Sprintf("consumer adapter: pending=%d unacked=%d acked=%d, want 0/0/%d", p, u, a, nWant))
 	}
-	e.Stat("values_checked", float64(len(want)))
+	e.Stat("values_checked", float64(nWant))
 	cw.Stop()
 	synctest.Wait()
 }
@@ -303,9 +361,46 @@ func epFidelity(c *RunCtx, typ, variant int, seed uint64) *Result {
 		}
 		prios[i] = Pick(r, 0, 0, 1, -1, 3, math.MaxInt64, math.MinInt64)
 	}
-	desc := fmt.Sprintf("fidelity type=%d variant=%d", typ, variant)
+	fidOpt = fidOpts{Retain: seed&2 != 0}
+	if seed&12 == 12 {
+		fidOpt.Par = 2 + int(seed>>4)%3
+	}
+	defer func() { fidOpt = fidOpts{} }()
+	desc := fmt.Sprintf("fidelity type=%d variant=%d retain=%v producers=%d", typ, variant, fidOpt.Retain, max(fidOpt.Par, 1))
 	out := RunBubble(c.T, func(bid string) {
 		switch typ {
+		case 8:
+			// typed slices: nil, empty but not nil, short
+			vals := make([][]int64, n)
+			for i := range vals {
+				switch i % 4 {
+				case 0:
+					vals[i] = []int64{}
+				case 1:
+					vals[i] = nil
+				default:
+					for j := 0; j < 1+r.Intn(4); j++ {
+						vals[i] = append(vals[i], genInt(r))
+					}
+				}
+			}
+			fidelity(c, e, variant, vals, ids, prios)
+		case 9:
+			// typed maps and slices of structs: nil, empty but not nil, short
+			vals := make([]map[string][]pStruct, n)
+			for i := range vals {
+				switch i % 4 {
+				case 0:
+					vals[i] = map[string][]pStruct{}
+				case 1:
+					vals[i] = nil
+				case 2:
+					vals[i] = map[string][]pStruct{genString(r): {}, "nil": nil}
+				default:
+					vals[i] = map[string][]pStruct{"a": {genStruct(r, 1)}}
+				}
+			}
+			fidelity(c, e, variant, vals, ids, prios)
 		case 0:
 			vals := make([]string, n)
 			for i := range vals {
@@ -336,7 +431,9 @@ func epFidelity(c *RunCtx, typ, variant int, seed uint64) *Result {
 		case 4:
 			vals := make([]map[string]any, n)
 			for i := range vals {
-				if i%5 != 0 {
+				if i%7 == 1 {
+					vals[i] = map[string]any{}
+				} else if i%5 != 0 {
 					vals[i] = map[string]any{genString(r): genAny(r, 2), "n": genInt(r)}
 				}
 				if i%9 == 4 {
@@ -352,6 +449,9 @@ func epFidelity(c *RunCtx, typ, variant int, seed uint64) *Result {
 				}
 				if i%8 == 5 {
 					vals[i] = []any{func() {}}
+				}
+				if i%8 == 6 {
+					vals[i] = []any{}
 				}
 			}
 			fidelity(c, e, variant, vals, ids, prios)
@@ -555,7 +655,7 @@ func epBadEntries(c *RunCtx, cfg badCfg) *Result {
 }
 
 func runC12(c *RunCtx) {
-	for typ := 0; typ < 8; typ++ {
+	for typ := 0; typ < 10; typ++ {
 		for variant := 0; variant < 4; variant++ {
 			for v := 0; v < c.Q(40, 400); v++ {
 				typ, variant, v := typ, variant, v
